@@ -1,4 +1,7 @@
+mod c01;
 mod c16;
+mod eng;
+mod probe;
 mod gen;
 mod out;
 mod rng;
@@ -42,6 +45,8 @@ fn main() {
     let mut out = out::Out::new(&outdir, seed, &tier);
     match prop.as_str() {
         "C16" => c16::run(&mut rng, &mut out, &tier),
+        "probe" => probe::run(),
+        "C01" => c01::run(&mut rng, &mut out, &tier),
         _ => {
             eprintln!("unknown property {prop}");
             std::process::exit(2);
